@@ -167,7 +167,7 @@ def gen_problem(rng, algs, alg_name=None, n=None, box=None, with_constraints=Non
     if name in MLSL or name in AUGLAG:
         need = aid in A.d["needlocal"]
         if need or rng.random() < 0.6:
-            deriv = "GD" in name or "LD" in name
+            deriv = "_GD_" in name or "_LD_" in name
             loc = rng.choice(GRAD_LOCAL[:6] if deriv else (DERIV_FREE_LOCAL if not need else DERIV_FREE_LOCAL + GRAD_LOCAL[:3]))
             if loc in ("NLOPT_LN_NEWUOA", "NLOPT_LN_NEWUOA_BOUND", "NLOPT_LN_BOBYQA") and n < 2:
                 loc = "NLOPT_LN_NELDERMEAD"
